@@ -167,6 +167,12 @@ func c11MapVerdicts(c *Ctx) int {
 // this: the query that was aborted leaves no trace either.
 type userPanic struct{ what string }
 
+// lateKw is a keyword given as a Stringer whose answer is still empty when the Condition is made and
+// arrives later (a name table filled in afterwards): what the Condition took at the time is what it has.
+type lateKw struct{ name string }
+
+func (k *lateKw) String() string { return k.name }
+
 // c11PanicReceivers are only put through the purity pass (a panic would end the other passes).
 func c11PanicReceivers() []c11Recv {
 	var out []c11Recv
@@ -399,6 +405,28 @@ func c11Receivers(quick bool) []c11Recv {
 			}})
 		}
 	}
+	// values whose own answer changes between the making of the instance and the query
+	for mode := 0; mode < 4; mode++ {
+		mode := mode
+		out = append(out, c11Recv{fmt.Sprintf("AND/late-stringer-keyword/mode%d", mode), func() any {
+			k1, k2, lf := &lateKw{}, &lateKw{"early"}, &lateKw{}
+			s := stackage.And().Push("a", stackage.Cond(k1, stackage.Eq, "v"), stackage.Cond(k2, stackage.Ne, lf), lf)
+			k1.name, k2.name, lf.name = "late", "renamed", "leaf-now"
+			if mode&1 != 0 {
+				s.SetMutex()
+			}
+			if mode&2 != 0 {
+				s.SetReadOnly(true)
+			}
+			return s
+		}})
+	}
+	out = append(out, c11Recv{"Condition/late-stringer-keyword", func() any {
+		k := &lateKw{}
+		cd := stackage.Cond(k, stackage.Eq, "v")
+		k.name = "late"
+		return cd
+	}})
 	for mode := 0; mode < 2; mode++ {
 		mode := mode
 		ro := func(c stackage.Condition) any {
@@ -921,6 +949,9 @@ func c11Env(on bool) {
 
 func init() {
 	register(&Check{ID: "C11", Engine: "A/B+C", Run: func(c *Ctx) {
+		if msg := sameNamedStructs(); msg != "" {
+			c.Violation("same-named-struct-types", "two distinct struct types that print the same name (function-local declarations) with different exported fields: "+msg, nil, 0)
+		}
 		if msg := hollowFirst(); msg != "" {
 			// alias types first met in hollow form: the order in which values of a type arrive must not matter
 			c.Violation("hollow-value-seen-first", "after nil pointers / zero values of an alias type had been the first values of that type the library saw: "+msg, nil, 0)
